@@ -18,6 +18,72 @@ def to_stimulus(beh, bid, cfg=None):
     return {'id': bid, 'cfg': cfg or {'minISR': 2, 'fetchMax': 2, 'rf': 3}, 'steps': steps}
 
 
+def _role(state, x):
+    meta = state['meta']
+    if x == meta['leader']:
+        return 'L'
+    return 'F' if x in meta['isr']['__set__'] else 'O'
+
+
+def features(beh):
+    """abstract features of a TLC behaviour (list of sim steps with parsed state) used for
+    coverage-guided selection: what happened, in which abstract situation, after what"""
+    feats = set()
+    prev = 'Init'
+    prev2 = '-'
+    for st in beh[1:]:
+        a = st['last']
+        try:
+            state = {k: core.tlaval.state_var(st['body'], k) for k in ('meta', 'up', 'pend', 'taint', 'role')}
+        except Exception:
+            state = None
+        kind = a['a']
+        det = ''
+        if state:
+            meta = state['meta']
+            isr = meta['isr']['__set__']
+            if kind == 'Publish':
+                det = '/'.join(r['pol'] for r in a['recs'])
+            elif kind in ('Fetch', 'Shrink', 'Expand', 'LagExpire'):
+                det = _role(state, a['f'])
+            elif kind in ('Crash', 'Restart', 'Checkpoint'):
+                det = _role(state, a['r']) + ('r' if a.get('reach', True) else 'n')
+            elif kind == 'Elect':
+                det = ('u' if state['up'][a['n']] else 'd') + ('r' if a['reach'] else 'n')
+            ctx = 'isr%d' % len(isr)
+            ctx += 'p' if any(state['pend'][r] for r in state['pend']) else ''
+            ctx += 'T' if state['taint']['__set__'] else ''
+        else:
+            ctx = ''
+        k = kind + ':' + det
+        feats.add(('s', k, ctx))
+        feats.add(('b', prev, k))
+        feats.add(('t', prev2, prev, k))
+        prev2, prev = prev, k
+    return feats
+
+
+def select(sims, n, rng):
+    """greedy selection of at most n behaviours covering as many distinct features as possible"""
+    pool = [(b, features(b)) for b in sims if len(b) > 1]
+    chosen, covered = [], set()
+    while pool and len(chosen) < n:
+        best, gain = None, -1
+        for i, (b, f) in enumerate(pool):
+            g = len(f - covered)
+            if g > gain:
+                best, gain = i, g
+        if gain <= 0:
+            break
+        b, f = pool.pop(best)
+        chosen.append(b)
+        covered |= f
+    rng.shuffle(pool)
+    while pool and len(chosen) < n:
+        chosen.append(pool.pop()[0])
+    return chosen, len(covered)
+
+
 def execute(behaviours, d, timeout=1500):
     stim = os.path.join(d, 'stim.json')
     trace = os.path.join(d, 'trace.ndjson')
@@ -103,8 +169,11 @@ def run(rep, tier, seed, replay, prop, names, relevant, rule, rf1=False, mc_quic
         rep.add_design(cfg, res)
     behaviours = probe_stimuli(rep)
     import json
-    with open(os.path.join(core.SPEC, 'scenarios', 'replication_regressions.json')) as fh:
-        behaviours += json.load(fh)['behaviours']
+    for fn in ('replication_regressions.json', 'replication_defects.json'):
+        # fixed stimuli: histories that exposed repaired defects, and one TLC counterexample per open
+        # defect (so that every run replays the same histories and prints the same KNOWN-FINDING lines)
+        with open(os.path.join(core.SPEC, 'scenarios', fn)) as fh:
+            behaviours += [dict(b, cfg=b.get('cfg') or {'minISR': 2, 'fetchMax': 2, 'rf': 3}) for b in json.load(fh)['behaviours']]
     if tier == 'thorough':
         for tag in FIXED_PROBES:
             names_, beh = core.tlc_counterexample('MC_Replication.tla', 'Probe_Replication_%s.cfg' % tag, timeout=3600)
@@ -112,8 +181,13 @@ def run(rep, tier, seed, replay, prop, names, relevant, rule, rf1=False, mc_quic
             if beh:
                 # the repaired defect is reachable again in the model: replay on the real code decides
                 behaviours.append(to_stimulus(beh, 9200))
-    num = 60 if tier == 'quick' else 1200
-    sims = core.tlc_simulate('MC_Replication.tla', 'Sim_Replication.cfg', num, 16, seed)
+    import random
+    rng = random.Random(seed)
+    # coverage-guided selection: simulate a large pool (cheap), replay the subset that covers the
+    # most distinct (action, abstract situation) / action-pair / action-triple features
+    pool = core.tlc_simulate('MC_Replication.tla', 'Sim_Replication.cfg', 1500 if tier == 'quick' else 20000, 18, seed)
+    sims, nfeat = select(pool, 110 if tier == 'quick' else 1500, rng)
+    rep.cov['selection'] = {'pool': len(pool), 'selected': len(sims), 'features_covered': nfeat}
     behaviours += [to_stimulus(b, i + 1) for i, b in enumerate(sims) if len(b) > 1]
     with core.scratch(prop.lower()) as d:
         trace = execute(behaviours, d, timeout=6000)
@@ -130,6 +204,17 @@ def run(rep, tier, seed, replay, prop, names, relevant, rule, rf1=False, mc_quic
             tr1 = judge(rep, b1, trace, prop, names, 'Trace_Replication_rf1.cfg')
         behaviours += b1
         lines += tr1['validated']
+    if rf1:
+        # batches of up to two messages with mixed ack policies (BatchMaxMessages = 2)
+        res = core.tlc_check('MC_Replication.tla', 'MC_Replication_batch.cfg', timeout=1800)
+        rep.add_design('MC_Replication_batch.cfg', res)
+        sims = core.tlc_simulate('MC_Replication.tla', 'Sim_Replication_batch.cfg', 25 if tier == 'quick' else 300, 14, seed + 2)
+        b2 = [to_stimulus(b, 7000 + i, {'minISR': 2, 'fetchMax': 2, 'rf': 3, 'batch': 2}) for i, b in enumerate(sims) if len(b) > 1]
+        with core.scratch(prop.lower()) as d:
+            trace = execute(b2, d, timeout=3000)
+            tr2 = judge(rep, b2, trace, prop, names)
+        behaviours += b2
+        lines += tr2['validated']
     rep.cov['traces_validated_against_impl'] = len(behaviours)
     rep.cov['trace_lines_validated'] = lines
     rep.cov['evaluations'] = len(behaviours)
